@@ -4060,7 +4060,7 @@ class PathSegment:
 
     def __iadd__(self, other):
         if isinstance(other, PathSegment):
-            path = Path(self, other)
+            path = Path(copy(self), copy(other))
             return path
         elif isinstance(other, str):
             path = Path(self) + other
@@ -5840,7 +5840,7 @@ class Path(Shape, MutableSequence):
                 self._segments.extend(s)
                 self.validate_connections()
             elif isinstance(s, PathSegment):
-                self._segments.append(s)
+                self._segments.append(copy(s))
         if SVG_ATTR_DATA in self.values:
             # Not sure what the purpose of pathd_loaded is.
             # It is only set and checked here, and you cannot have "d" attribute more than once anyway
